@@ -7,8 +7,10 @@
   data rows <strategy> ; schema ; r… ; r…                              → editor.list entered at a list
   data ops ; schema ; body ; op ; op …                                  → statuses and final body
      op = U body | I body | P body | DC i | DR i nk hkey* | R i data
+  data entry ; schema ; nk hkey* ; docbody ; entrybody                  → edit addressed at one entry (Model/EntryKey)
 -/
 import YangVerif.Model.Data
+import YangVerif.Model.EntryKey
 import YangVerif.Model.Util
 namespace YangVerif.Drv.Data
 open YangVerif YangVerif.Data
@@ -192,6 +194,16 @@ def handle (toks : List String) : String :=
         s!"{show' (editRows st ks s t)} | {show' (editRows st ks s t)}"
       | _, _, _ => "bad-op parse"
     | _, _ => "bad-op"
+  | "entry" :: ";" :: rest =>
+    match splitSemi rest with
+    | [sc, nk :: key, doc, body] =>
+      match pSchemaList fuel sc, nk.toNat?, pBody fuel doc, pBody fuel body with
+      | some (ks, []), some n, some (d, []), some (b, []) =>
+        match pKeys n key with
+        | some (k, []) => showRes (editEntry ks k d b)
+        | _ => "bad-op key"
+      | _, _, _, _ => "bad-op parse"
+    | _ => "bad-op"
   | "ops" :: ";" :: rest =>
     match splitSemi rest with
     | sc :: body :: ops =>
